@@ -453,7 +453,11 @@ inline void gen_graph(Choice& ch, Spec& s, const GenOpts& o, int size) {
         shape = 2 + ch.draw(4);
     }
     s.graph_shape = names[shape];
-    int maxn = std::max(1, std::min(o.max_classes, 2 + size / 3));
+    // sizes above 60 only occur in the thorough tier: registries up to twice
+    // as large there (properties that fix max_classes explicitly keep it)
+    int cap = o.max_classes == 10 && size > 60 ? 10 + (size - 60) / 3
+                                                : o.max_classes;
+    int maxn = std::max(1, std::min(cap, 2 + size / 3));
     int n = 1 + ch.draw(maxn);
     s.n = n;
     s.bases.assign(n, {});
